@@ -209,6 +209,41 @@ def XW.cmd (s : XW) : XCmd → XW
 
 def XW.run (s : XW) (cs : List XCmd) : XW := cs.foldl XW.cmd s
 
+/-! ### the `Graph` objects the wrapper hands out -/
+
+/-- which store a `Graph` object is bound to (where its `add` / `remove` go) -/
+inductive Bound
+  | wrapper
+  | wrapped
+  deriving DecidableEq, Repr
+
+/-- a `Graph` object as far as writes are concerned: its name and its store -/
+abbrev Handle := Nat × Bound
+
+/-- `AuditableStore.contexts(triple)`: `ctx.__class__(self, ctx.identifier)` for every graph of the wrapped store's answer -/
+def handOutContexts (m : Mem) (t : Option Triple) : List Handle :=
+  (memContexts m t).map (fun g => (g, Bound.wrapper))
+
+/-- `AuditableStore.triples(pattern, context)` (after fix C18-F4): each triple with its graphs, re-bound like `contexts()` -/
+def handOutTriples (cur : List Quad) (p : Pat) : List (Triple × List Handle) :=
+  (memTriples cur p).map (fun tc => (tc.1, tc.2.map (fun g => (g, Bound.wrapper))))
+
+/-- a write made through a `Graph` object: `Graph.add` / `Graph.remove` call `self.store.add / remove(…, context=self)` -/
+inductive HWrite
+  | add (t : Triple)
+  | remove (s p o : Option Nat)
+  deriving Repr
+
+def XW.writeVia (s : XW) (h : Handle) : HWrite → XW
+  | .add t =>
+    match h.2 with
+    | .wrapper => s.add (mkQuad t h.1)
+    | .wrapped => { s with m := s.m.add (mkQuad t h.1) }
+  | .remove a b c =>
+    match h.2 with
+    | .wrapper => s.remove (a, b, c, some h.1)
+    | .wrapped => { s with m := s.m.remove (a, b, c, some h.1) }
+
 /-! ### operations of `rdflib.graph` / `rdflib.store` that reach the wrapper as several calls -/
 
 inductive GOp
